@@ -522,7 +522,7 @@ func server(dotu bool, root string) *go9p.Ufs {
 var caseSeq int
 
 func newMachine(c *Case, known func(string) bool) (*machine, error) {
-	dir, err := os.MkdirTemp("/tmp", "c17-")
+	dir, err := os.MkdirTemp("", "c17-")
 	if err != nil {
 		return nil, harnessf("MkdirTemp: %v", err)
 	}
